@@ -1,4 +1,4 @@
-"""C10 (generic part, provisional): Simulation_Investigation's summary / S,I,R,t / node_status /
+"""C10: Simulation_Investigation's summary / S,I,R,t / node_status /
 get_statuses describe the node histories they are built from, and the object returned with
 return_full_data=True describes the same epidemic as the arrays returned without it.
 Theorems: coq/Props/C10.v over Model/Investigation.v.  Tie: (a) the class itself is driven with
@@ -13,8 +13,9 @@ from . import common as C
 from . import c10_lib as L
 
 CLAIM = dict(
-    claimed=False,
-    text="Machine-checked theorems (coq/Props/C10.v, closed under the global context) over an executable model of Simulation_Investigation "
+    text="Machine-checked theorems (coq/Props/C10.v, closed under the global context): for Gillespie_SIR/SIS, every graph and every full-data run, the per-node histories are the projections of ONE event log and "
+         "the arrays its running counts, hence summary(histories) = arrays whenever event times are strictly increasing (C10_gillespie_summary_equals_arrays; with C18's flag independence these are the plain-mode arrays); "
+         "and over an executable model of Simulation_Investigation "
          "(summary with its delta tables, sorted distinct times, running sums and the 'not in delta' skip; node_status/get_statuses; S/I/R/t; "
          "_transform_to_node_history_ for SIR and SIS): for ALL histories that start at tmin, are time-ordered and use possible statuses, "
          "summary at each listed time = number of listed nodes whose node_status is s (whole node set or any list of nodes); node_status = status of "
@@ -24,8 +25,8 @@ CLAIM = dict(
          "fast_SIR/SIS run in both return modes from identical seeds.",
     design='DESIGN.md section 4, C10 (generic part: (i)-(iii) and the checker)',
     technique='Coq proof over hand-written model + extracted-model/implementation correspondence + extracted checker on implementation outputs',
-    note="Provisional: the per-simulator theorems (outputs_from_one_log) and the scripted-draw correspondence of the simulators belong to the simulator "
-         "components. Discrete-time simulators draw extra random numbers with full data and are not compared here.")
+    note="Per-simulator theorem delivered for Gillespie_SIR/SIS; the event-driven simulators are covered by their own theorems (C11 arrays/transmissions read off the final state, C02fast/C13 logs) and by the "
+         "scripted both-modes comparison here. Discrete-time simulators draw extra random numbers with full data and are compared only under deterministic rules.")
 
 SCHEMES = ['int', 'int5', 'str', 'tup']
 MODELS = {
@@ -483,6 +484,31 @@ def run(run, tier):
             note(spec_bad, c['sim'] + '/arrays-vs-full-data', len(c['edges']) + len(o['rows']), '%s (seed %d): extracted checker: %s' % (c['sim'], c['seed'], v), c)
         elif bad and not v:
             note(mism, 'checker', len(c['edges']), 'the python oracle rejects (%s) but the extracted checker accepts' % bad[:200], c)
+    # ---- (c) scripted draws: the simulator libraries, full data vs plain arrays on the SAME script
+    from . import gil_lib as GL, sim_check as SC, xcut as X, xsim, simrun as R2
+    per = {}
+    import EoN.simulation as sim
+    okg, logg = C.build_driver(GL.COMP)
+    total = SC.Result()
+    if okg:
+        def gil_oracle(case, impl, m):
+            if impl['status'] != 'OK' or 'hist' not in impl: return []
+            plain = GL.run_impl(EoN, sim, case, m.get('draws', []), full=False)
+            if plain['status'] != 'OK' or isinstance(plain['rows'], (str, tuple)):
+                return [('plain-mode', 'full-data run returns but the same draws without return_full_data give %s %s' % (plain['status'], plain.get('err', '')))]
+            sir = case['kind'] == 'SIR'
+            d = X.full_vs_arrays(impl['hist'], plain['rows'], 3 if sir else 2, case['tmin'], {(0, 1), (1, 2)} if sir else {(0, 1), (1, 0)})
+            return [('full-vs-arrays', d)] if d else []
+        for kind in ('SIR', 'SIS'):
+            res = SC.Result()
+            cs = [dict(GL.gen_case(rng, kind, nmax=8), full=True) for _ in range(500 if tier == 'quick' else 8000)]
+            SC.run_cases(GL, EoN, sim, cs, ['W ' + R2.ent_tokens(rng) for _ in cs], gil_oracle,
+                         lambda case, m, impl: m['status'] == 'OK' and len(m.get('rows', [])) >= 2, res, 'Gillespie_' + kind)
+            SC.report(run, 'C10', 'Gillespie_' + kind, res, 'Model/Gillespie.v', 'Props/C10.v')
+            per['Gillespie_' + kind] = {'proved': 'C10_gillespie_summary_equals_arrays', 'cases': res.n, 'mismatches': len(res.mism), 'oracle_failures': len(res.oracle_bad)}
+            total.n += res.n
+    xsim.run_others(run, 'C10', EoN, sim, tier, per, total, 'full_vs_arrays')
+    stats['scripted_simulators'] = per
     # ---- verdicts
     for key, (size, what, c) in spec_bad.items():
         run.violation('C10/%s' % key if key.startswith('Simulation_Investigation.__init__/') else 'C10/%s/spec' % key,
@@ -497,7 +523,7 @@ def run(run, tier):
                       {'case': jsonable(c), 'broken': 'correspondence Model/Investigation.v vs EoN (%s)' % key, 'detail': what}, no_input=True)
     if not props['ok']:
         run.violation('C10/proof', 'Props/C10.v no longer checks: %s' % props['log'][-400:], {'broken': 'coq/Props/C10.v', 'log': props['log']}, no_input=True)
-    n_eval = len(lines) + len(tl) + len(scases)
+    n_eval = len(lines) + len(tl) + len(scases) + total.n
     C.proof_coverage(run, props, n_eval, min(len(distinct) + len(chk), n_eval),
                      'Simulation_Investigation built directly from random legal node histories (1-8 nodes, int/shifted-int/str/tuple labels in permuted order; models SIR, SIS, SIRS, SEIR and a '
                      '3-status model with unrelated names; 0-4 changes per node on a dyadic grid so that nodes share change times; 5%% same-instant double changes; 11%% defaultdict histories '
